@@ -124,7 +124,11 @@ def toSpec : Sx → Option JobSpec
 
 def toOp : List Sx → Option Op
   | [.atom "create", j, key, spec, ef, tf] =>
-      (toSpec spec).map (fun sp => .create j.nat! (key.optInt.map Int.toNat) sp (csvNats ef) (csvNats tf))
+      -- a `p<k>` entry of the trigger failure list: every call with index >= k raises
+      let perm : Nat := match tf with
+        | .atom s => ((s.splitOn ",").filterMap fun t => if t.startsWith "p" then (t.drop 1).toNat? else none).foldl min 1000000000
+        | _ => 1000000000
+      (toSpec spec).map (fun sp => .create j.nat! (key.optInt.map Int.toNat) sp (csvNats ef) (csvNats tf) perm)
   | [.atom "cancel", j] => some (.cancel j.nat!)
   | [.atom "pause", j] => some (.pause j.nat!)
   | [.atom "resume", j] => some (.resume j.nat!)
@@ -259,7 +263,7 @@ def handle (d : DState) (line : String) : DState × List String :=
         let s0 := { d.sched with log := [], env := d.env }
         let (s', err) := step s0 op
         let d := match op, err with
-          | .create j .., none => if d.handles.contains j then d else { d with handles := d.handles ++ [j] }
+          | .create j _ _ _ _ _, none => if d.handles.contains j then d else { d with handles := d.handles ++ [j] }
           | _, _ => d
         ({ d with sched := s' }, schedOut d s' err)
   | .atom "tm-reset" :: kind :: args =>
